@@ -109,6 +109,9 @@ static void restore(const struct state *st)
   fakehelo = st->fake ? helohost.s : 0;
 }
 
+/* reply code of the line after the first one (the answer to the final dot, after "354 ..."): texts may change, codes may not */
+static int second_code(const unsigned char *o, size_t n) { size_t i = 0; while (i < n && o[i] != '\n') i++; i++; if (i + 3 > n) return 0; return (o[i] - '0') * 100 + (o[i + 1] - '0') * 10 + (o[i + 2] - '0'); }
+static int last_code(const unsigned char *o, size_t n, size_t *start) { size_t i = n; if (i && o[i - 1] == '\n') i--; while (i > 0 && o[i - 1] != '\n') i--; *start = i; if (i + 3 > n) return 0; return (o[i] - '0') * 100 + (o[i + 1] - '0') * 10 + (o[i + 2] - '0'); }
 static int first_code(const unsigned char *o, size_t n) { if (n < 3) return 0; return (o[0] - '0') * 100 + (o[1] - '0') * 10 + (o[2] - '0'); }
 
 static void step(size_t si, int ci, int maxdepth)
@@ -153,7 +156,7 @@ static void step(size_t si, int ci, int maxdepth)
     if (c->kind == 6 && want == 354) {
       /* over the size limit: permanent refusal after the dot, nothing submitted, transaction over */
       if (qq_committed) { H_FAIL(key, "over-size message was submitted"); return; }
-      if (net_out_len < 20 || memcmp(net_out + 14, "552 ", 4)) { H_FAIL(key, "over-size DATA not answered 552: %s", H_ESC(net_out, net_out_len)); return; }
+      if (second_code(net_out, net_out_len) != 552) { H_FAIL(key, "over-size DATA not answered 552: %s", H_ESC(net_out, net_out_len)); return; }
       r_open = 0; rll = 0; n_data++;
     } else if (c->kind == 3 && want == 354) {
       /* the message must have been submitted with exactly the ledger's envelope */
@@ -164,7 +167,7 @@ static void step(size_t si, int ci, int maxdepth)
       env[el++] = 0;
       if (qq_committed != 1) { H_FAIL(key, "DATA completed but %d messages were submitted", qq_committed); return; }
       if (qq_last_env_len != el || memcmp(qq_last_env, env, el)) { H_FAIL(key, "envelope handed to the queue is %s; the transaction (latest MAIL answered 250, RCPTs answered 250 since) is %s (after: %s)", H_ESC(qq_last_env, qq_last_env_len > 300 ? 300 : qq_last_env_len), H_ESC(env, el > 300 ? 300 : el), s->path); return; }
-      if (net_out_len < 20 || memcmp(net_out + 14, "250 ok", 6)) { H_FAIL(key, "no 250 after the final dot: %s", H_ESC(net_out, net_out_len)); return; }
+      if (second_code(net_out, net_out_len) != 250) { H_FAIL(key, "no 250 after the final dot: %s", H_ESC(net_out, net_out_len)); return; }
       r_open = 0; rll = 0;
     } else if (qq_opens || qq_committed) { H_FAIL(key, "[%s] answered %d but the queue was contacted (%d opens, %d commits)", c->line, code, qq_opens, qq_committed); return; }
     /* ---- input-form variants (states up to depth 2): the same command ended by a bare LF, and pipelined with a NOOP in the same
@@ -181,7 +184,7 @@ static void step(size_t si, int ci, int maxdepth)
         h_exit_armed = 1;
         if (setjmp(h_exit_jb) == 0) { commands(&ssin, &smtpcommands); h_exit_armed = 0; }
         n_eval++; n_variants++;
-        if (v == 1) { if (net_out_len < 8 || memcmp(net_out + net_out_len - 8, "250 ok\r\n", 8)) { H_FAIL(key, "pipelined NOOP after [%s] not answered 250 ok: %s", strlen(c->line) > 80 ? "(over-long)" : c->line, H_ESC(net_out, net_out_len > 200 ? 200 : net_out_len)); return; } net_out_len -= 8; }
+        if (v == 1) { size_t ls = 0; if (last_code(net_out, net_out_len, &ls) != 250) { H_FAIL(key, "pipelined NOOP after [%s] not answered 250 ok: %s", strlen(c->line) > 80 ? "(over-long)" : c->line, H_ESC(net_out, net_out_len > 200 ? 200 : net_out_len)); return; } net_out_len = ls; }
         if (net_out_len != o0l || memcmp(net_out, o0, o0l)) { H_FAIL(key, "%s: replies differ from the CRLF-terminated form: %s vs %s", v ? "pipelined with a following command" : "line ended by a bare LF", H_ESC(net_out, net_out_len > 120 ? 120 : net_out_len), H_ESC(o0, o0l > 120 ? 120 : o0l)); return; }
         if (hash_server() != h0 || qq_committed != com0 || qq_last_env_len != e0l || memcmp(qq_last_env, e0, e0l)) { H_FAIL(key, "%s: server state or submission differs from the CRLF-terminated form", v ? "pipelined with a following command" : "line ended by a bare LF"); return; }
       }
